@@ -118,7 +118,7 @@ def value_case(c):
     nt = "pi" in rho or abs(lv - emax) < 2 or abs(lv - edenorm) < 3 or lv != 0
     if in_range:
         v = c11.mval(rho)
-        ulps = 6 + (sum(abs(e.numerator) for e in rho.values()) / 8 if T == "long double" else 0)
+        ulps = 6 + sum(abs(e.numerator) for e in rho.values()) * 2.0 ** (dig - 64)
         tol = v * ulps * mpmath.mpf(2) ** (-(dig - 1)) if lv >= emin else mpmath.mpf(2) ** edenorm * 1.01
         lo, hi = c11.ldlit(v - tol), c11.ldlit(v + tol)
         pos.append('static_assert(K.can_store_value_in<%s>(u), "can_store_value_in floating");' % T)
